@@ -111,7 +111,13 @@ def seeds_through_updater(case):
             stream.set_seed(self.master.next_int(0, 2 ** 31) + replication_nr)
 
     upd = StreamSeedUpdater({names[0]: [11, 22, 33, 44, 55]})
-    upd.set_fallback_stream_updater(MasterUpdater(u["master"]))
+    if u.get("fallback", "master") == "master":
+        upd.set_fallback_stream_updater(MasterUpdater(u["master"]))
+    elif case.get("apply_history"):
+        # the library's default fallback derives the seed from name, ORIGINAL seed and replication number only:
+        # replications prepared earlier with the same updater and stream objects do not matter
+        for r0 in u.get("history", []):
+            upd.update_seeds(streams, r0 % 5)
     upd.update_seeds(streams, u["r"] % 5)
     return [streams[n].seed() for n in names]
 
